@@ -25,8 +25,13 @@ OVERLAPS = [0.0, 0.0, 0.1, 0.25, 0.5, 1.0 / 3.0, 0.05, 0.2]
 # ---------------------------------------------------------------------------------------
 
 
+DTYPES = ["float64", "float64", "uint8", "uint8", "float32", "uint16", "int64", "bool"]
+TRAILS = [[1], [2], [4], [2, 2], [2, 2]]  # trailing (range) axes of a general non-scalar Image
+CSPACES = ["RGB", "BGR", "HSV"]
+
+
 @st.composite
-def cases(draw, max_extent=40):
+def cases(draw, max_extent=40, overlap="any"):
     shape, npatch, dims, dkinds = [], [], [], []
     for ax in range(2):
         n = draw(st.integers(1, 6))
@@ -49,7 +54,10 @@ def cases(draw, max_extent=40):
         npatch.append(n)
         dims.append(float(D))
         dkinds.append(dk)
-    ov = draw(st.one_of(st.sampled_from(OVERLAPS), st.floats(0.0, 0.5, allow_nan=False)))
+    if overlap == "positive":
+        ov = draw(st.one_of(st.sampled_from([o for o in OVERLAPS if o > 0]), st.floats(0.01, 0.5, allow_nan=False)))
+    else:
+        ov = draw(st.one_of(st.sampled_from(OVERLAPS), st.floats(0.0, 0.5, allow_nan=False)))
     origin = None
     if draw(st.booleans()):
         # user origin, up to 1e4 voxel sizes away, measured in the voxel size of that Cartesian axis
@@ -59,18 +67,28 @@ def cases(draw, max_extent=40):
             frac = draw(st.sampled_from([0.0, 0.5, 0.25, 0.3]))
             m = AXES[2][c][0]
             origin.append(float((k + frac) * dims[m] / shape[m]))
-    payload = draw(st.sampled_from(["scalar", "scalar", "colour"]))
-    cls = "Image"
+    payload = draw(st.sampled_from(["scalar", "scalar", "scalar", "colour", "colour", "colour", "trailing", "trailing"]))
+    cls, trail, cspace = "Image", None, "RGB"
     if payload == "scalar":
         cls = draw(st.sampled_from(["Image", "ScalarImage"]))
+    elif payload == "colour":
+        cls = draw(st.sampled_from(["Image", "OpticalImage", "OpticalImage"]))
+        if cls == "OpticalImage":
+            cspace = draw(st.sampled_from(CSPACES))
     else:
-        cls = draw(st.sampled_from(["Image", "OpticalImage"]))
+        # general non-scalar image: 1, 2 or 4 channels, or a 2x2 tensor per voxel
+        trail = draw(st.sampled_from(TRAILS))
+    meta = None
+    if draw(st.sampled_from([False, False, True])):
+        # further metadata the re-assembled image has to carry along
+        meta = {"name": "base-%d" % draw(st.integers(0, 99)), "time": draw(st.integers(0, 64)) / 8.0}
     return {
         "shape": shape, "np": npatch, "dims": dims, "dkind": dkinds, "ov": float(ov),
         "origin": origin, "payload": payload, "cls": cls,
-        "dtype": draw(st.sampled_from(["float64", "uint8"])),
+        "dtype": draw(st.sampled_from(DTYPES)),
         "pseed": draw(st.integers(0, 2**16)),
-        "np_as": draw(st.sampled_from(["list", "tuple"])),
+        "np_as": draw(st.sampled_from(["list", "tuple", "npint"])),
+        "trail": trail, "cspace": cspace, "meta": meta,
     }
 
 
@@ -78,21 +96,40 @@ def gen(tier):
     return cases(40)
 
 
+def gen_overlap(tier):
+    return cases(40, overlap="positive")
+
+
 # ---------------------------------------------------------------------------------------
 # set-up
 # ---------------------------------------------------------------------------------------
 
 
+def _trail(case):
+    if case["payload"] == "scalar":
+        return ()
+    if case["payload"] == "colour":
+        return (3,)
+    return tuple(case["trail"])
+
+
 def _payload(case, ids=False):
     N0, N1 = case["shape"]
-    shp = (N0, N1) if case["payload"] == "scalar" else (N0, N1, 3)
+    shp = (N0, N1) + _trail(case)
     if ids:
         # every entry of the base array is unique: data identity tells which voxel it came from
         return np.arange(int(np.prod(shp)), dtype=np.float64).reshape(shp)
     rng = np.random.default_rng(case["pseed"])
-    if case["dtype"] == "uint8":
+    dt = case["dtype"]
+    if dt == "uint8":
         return rng.integers(0, 256, size=shp).astype(np.uint8)
-    return (rng.integers(-32, 32, size=shp) / 8.0).astype(np.float64)
+    if dt == "uint16":
+        return rng.integers(0, 2**16, size=shp).astype(np.uint16)
+    if dt == "int64":
+        return rng.integers(-2**40, 2**40, size=shp).astype(np.int64)
+    if dt == "bool":
+        return rng.integers(0, 2, size=shp).astype(bool)
+    return (rng.integers(-32, 32, size=shp) / 8.0).astype(np.float32 if dt == "float32" else np.float64)
 
 
 def _build(case, ids=False):
@@ -100,21 +137,33 @@ def _build(case, ids=False):
     kw = {"dimensions": [float(d) for d in case["dims"]]}
     if case["origin"] is not None:
         kw["origin"] = [float(o) for o in case["origin"]]
+    if case.get("meta"):
+        kw.update(case["meta"])
     if case["cls"] == "ScalarImage":
         img = darsia.ScalarImage(arr, space_dim=2, **kw)
     elif case["cls"] == "OpticalImage":
-        img = darsia.OpticalImage(arr, color_space="RGB", **kw)
+        img = darsia.OpticalImage(arr, color_space=case.get("cspace", "RGB"), **kw)
     else:
         img = darsia.Image(arr, space_dim=2, scalar=case["payload"] == "scalar", **kw)
     ref = RefCS(2, case["shape"], case["dims"], case["origin"])
     return img, arr.copy(), ref
 
 
-def _patches(case, img):
-    n = list(case["np"]) if case["np_as"] == "list" else tuple(case["np"])
-    if case["ov"] == 0.0 and case["pseed"] % 2 == 0:
+def _count_arg(case):
+    """The patch counts in the call form of the case (a fresh object per call)."""
+    if case["np_as"] == "tuple":
+        return tuple(case["np"])
+    if case["np_as"] == "npint":
+        return [np.int64(k) for k in case["np"]]  # counts that come out of a numpy computation
+    return list(case["np"])
+
+
+def _patches(case, img, n=None, ov=None):
+    n = _count_arg(case) if n is None else n
+    ov = case["ov"] if ov is None else ov
+    if ov == 0.0 and case["pseed"] % 2 == 0:
         return darsia.Patches(img, n)  # default overlap
-    return darsia.Patches(img, n, rel_overlap=case["ov"])
+    return darsia.Patches(img, n, rel_overlap=ov)
 
 
 def _divisible(case):
@@ -152,6 +201,13 @@ def _outcome(case, p, evals):
         labels.append("fewer-voxels-than-patches")
     if any(k == "decimal-h" for k in case["dkind"]):
         labels.append("decimal-voxel-size")
+    labels.append(f"counts-as-{case['np_as']}")
+    if case["payload"] == "trailing":
+        labels.append("trailing-" + "x".join(str(k) for k in case["trail"]))
+    if case["cls"] == "OpticalImage":
+        labels.append(f"colour-space-{case.get('cspace', 'RGB')}")
+    if case.get("meta"):
+        labels.append("extra-metadata")
     nontrivial = (not div) or case["ov"] > 0 or not pow2
     key = [N, n, case["dims"], case["ov"], case["origin"], case["payload"]]
     return Outcome(nontrivial, key, tuple(labels), evals=max(1, evals))
@@ -169,11 +225,35 @@ def _scale(ref):
 # ---------------------------------------------------------------------------------------
 
 
+def _meta_equal(a, b):
+    if isinstance(a, (np.ndarray, list, tuple)) or isinstance(b, (np.ndarray, list, tuple)):
+        a, b = np.asarray(a), np.asarray(b)
+        return a.shape == b.shape and bool(np.all(a == b))
+    return type(a) is type(b) and a == b
+
+
+def _counts_untouched(case, n_arg, t):
+    """The caller's count sequence is only read."""
+    if len(n_arg) != 2 or [int(k) for k in n_arg] != [int(k) for k in case["np"]]:
+        raise Violation("counts-argument-changed", f"the patch counts handed to Patches became {list(n_arg)!r}", t)
+
+
 def check_assemble(case):
     img, arr, ref = _build(case)
-    p = _patches(case, img)
+    n_arg = _count_arg(case)
+    p = _patches(case, img, n=n_arg)
     t = _tags(case)
+    before = img.metadata()
     out = p.assemble()
+    _counts_untouched(case, n_arg, t)
+    # everything needed to re-create the image travels along (name, time, colour space, ...)
+    after, got = img.metadata(), out.metadata()
+    for k in sorted(before):
+        if k not in got or not _meta_equal(got[k], before[k]):
+            raise Violation("assemble-metadata", f"metadata entry {k!r}: base {before[k]!r}, assembled "
+                            f"{got.get(k)!r}", _tags(case, key=k))
+        if not _meta_equal(after[k], before[k]):
+            raise Violation("assemble-base-changed", f"assemble() changed the base's metadata entry {k!r}", t)
     if out.img.shape != arr.shape:
         raise Violation("assemble-shape", f"assembled {out.img.shape}, base {arr.shape}", t)
     if out.img.dtype != arr.dtype:
@@ -241,6 +321,14 @@ def check_tile(case):
 # ---------------------------------------------------------------------------------------
 
 
+def _block(shp, n, dtype):
+    """Patch-specific content number n of the given shape and dtype (never constant)."""
+    k = np.arange(int(np.prod(shp)), dtype=float).reshape(shp)
+    if np.dtype(dtype) == np.dtype(bool):
+        return (k + n) % 3 == 0
+    return ((k % 97) / 8.0 + 16.0 * (n + 1)).astype(dtype)
+
+
 def check_set_image(case):
     """Every patch is given new, patch-specific content with set_image; afterwards each patch holds
     exactly what was set for it, the base image is untouched, and assemble() is the mosaic of the
@@ -249,16 +337,26 @@ def check_set_image(case):
     p = _patches(case, img)
     t = _tags(case)
     ids = _ij(case)
-    new = {}
+    new, handed = {}, {}
     for n, (i, j) in enumerate(ids):
-        shp = p(i, j).img.shape
-        block = (np.arange(int(np.prod(shp)), dtype=float).reshape(shp) % 97) / 8.0 + 16.0 * (n + 1)
-        new[(i, j)] = block.astype(arr.dtype)
-        p.set_image(new[(i, j)].copy(), i, j)
+        new[(i, j)] = _block(p(i, j).img.shape, n, arr.dtype)
+        handed[(i, j)] = new[(i, j)].copy()
+        p.set_image(handed[(i, j)], i, j)  # the caller's own array, no copy in between
     for (i, j) in ids:
         if not np.array_equal(p(i, j).img, new[(i, j)]):
             raise Violation("set-image-overwritten", f"patch ({i},{j}) no longer holds the array that was set for it "
                             f"after the other patches were set", t)
+        if not np.array_equal(handed[(i, j)], new[(i, j)]):
+            raise Violation("set-image-changes-argument", f"the array handed to set_image for patch ({i},{j}) "
+                            "was modified", t)
+    # the patches hold the content, not the caller's buffers: re-using a buffer afterwards (as a
+    # loop filling one work array would) does not reach into the patches
+    for (i, j) in ids:
+        handed[(i, j)][...] = _block(handed[(i, j)].shape, 40, arr.dtype)
+    for (i, j) in ids:
+        if p(i, j).img.size and not np.array_equal(p(i, j).img, new[(i, j)]):
+            raise Violation("set-image-aliases-argument", f"patch ({i},{j}) changed when the array that had been "
+                            "handed to set_image was re-used by the caller", t)
     if not np.array_equal(img.img, arr):
         raise Violation("set-image-changes-base", "set_image changed the base image", t)
     out = p.assemble()
@@ -392,7 +490,31 @@ def check_corners_centres(case):
         if not np.array_equal(conv, cv[i, j]):
             raise Violation("centres-convert", f"patch ({i},{j}): voxel(global_centers_cartesian) = "
                             f"{conv.tolist()} but global_centers_voxels = {cv[i, j].tolist()}", t)
-    return _outcome(case, p, 2 * len(_ij(case)))
+        # the same by the reference map (not by the code's own voxel()): the centre voxel is the
+        # voxel that contains the physical centre, judged where rounding cannot decide it
+        vf = ref.voxel_float(cc[i, j])
+        if np.all(np.abs(vf - np.round(vf)) > 1e-6) and not np.array_equal(np.floor(vf).astype(int), cv[i, j]):
+            raise Violation("centres-voxel-vs-reference", f"patch ({i},{j}): global_centers_cartesian "
+                            f"{cc[i, j].tolist()} lies in voxel {np.floor(vf).astype(int).tolist()} of the base "
+                            f"(position {vf.tolist()}) but global_centers_voxels = {cv[i, j].tolist()}", t)
+    # the centres form a lattice inside the base image: one x per patch column, one y per patch row,
+    # x growing with the column index, y falling with the row index (whichever way a centre is
+    # defined for ragged last patches); asserted where every patch has voxels
+    if not any(0 in p(i, j).img.shape[:2] for i, j in _ij(case)):
+        n0, n1 = case["np"]
+        lo = np.array([ref.origin[0], ref.origin[1] - ref.dimensions[0]])
+        hi = np.array([ref.origin[0] + ref.dimensions[1], ref.origin[1]])
+        why = None
+        if np.any(np.abs(cc[:, :, 0] - cc[:1, :, 0]) > tol[0]) or np.any(np.abs(cc[:, :, 1] - cc[:, :1, 1]) > tol[1]):
+            why = "patches of one column / row do not share the x / y of their centres"
+        elif np.any(np.diff(cc[:, :, 0], axis=1) <= 0) or np.any(np.diff(cc[:, :, 1], axis=0) >= 0):
+            why = "x does not grow with the patch column or y does not fall with the patch row"
+        elif np.any(cc < lo - tol) or np.any(cc > hi + tol):
+            why = f"a centre lies outside the base image {lo.tolist()}..{hi.tolist()}"
+        if why:
+            raise Violation("centres-not-a-lattice", f"{case['np']} patches on {case['shape']} voxels: {why}; "
+                            f"centres {cc.tolist()}", t)
+    return _outcome(case, p, 3 * len(_ij(case)))
 
 
 # ---------------------------------------------------------------------------------------
@@ -442,16 +564,225 @@ def check_centre_in_box(case):
 
 
 # ---------------------------------------------------------------------------------------
+# 6. local corners: the patch's own voxel frame (what PiecewisePerspectiveTransform maps onto the
+#    global corners)
+# ---------------------------------------------------------------------------------------
+
+
+def check_local_corners(case):
+    """local_corners_voxels describe the box of the patch interior in the patch's own frame: as large
+    as the interior; and for patches without overlap (the form the in-repository caller uses) they
+    start at voxel (0, 0) of the patch image, equal the global corners shifted by the top-left
+    one, and the patch between its local corners is the base between the global corners."""
+    img, arr, ref = _build(case)
+    n_arg = _count_arg(case)
+    p = _patches(case, img, n=n_arg)
+    t = _tags(case)
+    n0, n1 = case["np"]
+    _counts_untouched(case, n_arg, t)
+    # what the consumers of a Patches object read
+    if len(p.num_patches) != 2 or [int(k) for k in p.num_patches] != [n0, n1] or p.num_active_spatial_axes != 2:
+        raise Violation("advertised-counts", f"num_patches {p.num_patches!r}, active axes "
+                        f"{p.num_active_spatial_axes!r} for counts {case['np']}", t)
+    if not np.array_equal(p.base.img, arr) or len(p.patches) != n0 or any(len(r) != n1 for r in p.patches):
+        raise Violation("advertised-base", "base / patches table of the Patches object do not match the input", t)
+    gcv = np.asarray(p.global_corners_voxels)
+    lcv = np.asarray(p.local_corners_voxels)
+    if lcv.shape != (n0, n1, 4, 2) or lcv.dtype.kind not in "iu":
+        raise Violation("corners-shape", f"local_corners_voxels has shape {lcv.shape}, dtype {lcv.dtype}", t)
+    n_eval = 0
+    for i, j in _ij(case):
+        patch = p(i, j)
+        interior = patch.img[p.relative_rois_without_overlap[i][j]]
+        if 0 in interior.shape[:2]:
+            continue  # empty patch: no box to describe
+        lc, gc = lcv[i, j], gcv[i, j]
+        n_eval += 1
+        if not (lc[0, 1] == lc[1, 1] and lc[2, 1] == lc[3, 1] and lc[0, 0] == lc[3, 0] and lc[1, 0] == lc[2, 0]):
+            raise Violation("corners-not-a-box", f"patch ({i},{j}): local voxel corners {lc.tolist()} are not "
+                            "ordered top-left, bottom-left, bottom-right, top-right", t)
+        size = (lc[2] - lc[0]).tolist()
+        if size != list(interior.shape[:2]):
+            raise Violation("local-corners-size", f"patch ({i},{j}) of {case['np']} patches on {case['shape']} "
+                            f"voxels: local corners {lc.tolist()} span {size} voxels, the patch interior has "
+                            f"{list(interior.shape[:2])}", t)
+        if case["ov"] > 0:
+            continue  # frame of the local corners of an overlapping patch: not specified
+        if not np.array_equal(lc, gc - gc[0]):
+            raise Violation("local-vs-global-corners", f"patch ({i},{j}): local corners {lc.tolist()} are not the "
+                            f"global corners {gc.tolist()} relative to the top-left one", t)
+        got = patch.img[lc[0, 0]:lc[1, 0], lc[0, 1]:lc[3, 1]]
+        want = arr[gc[0, 0]:gc[1, 0], gc[0, 1]:gc[3, 1]]
+        if got.shape != want.shape or not np.array_equal(got, want):
+            raise Violation("local-corners-data", f"patch ({i},{j}): the patch between its local corners "
+                            f"{lc.tolist()} is not the base between the global corners {gc.tolist()}", t)
+    return _outcome(case, p, n_eval)
+
+
+# ---------------------------------------------------------------------------------------
+# 7. the overlap extends the patches and nothing else
+# ---------------------------------------------------------------------------------------
+
+
+def check_overlap(case):
+    """Same image and counts, once with relative overlap r > 0 and once without. The overlap is added
+    around each patch ("relative overlap of each patch (in relation to patch size) in each direction"):
+    the interiors, the corner and centre tables are those of the patching without overlap, a patch
+    without overlap is its own interior, and each patch reaches over its interior by about r patch
+    sizes on every side that has a neighbour."""
+    img, arr, ref = _build(case)
+    p = _patches(case, img)
+    p0 = darsia.Patches(img, _count_arg(case))
+    t = _tags(case)
+    N, n, r = case["shape"], case["np"], case["ov"]
+    tol = KTOL * EPS * _scale(ref)
+    for name in ("global_corners_voxels", "local_corners_voxels", "global_centers_voxels"):
+        a, b = np.asarray(getattr(p, name)), np.asarray(getattr(p0, name))
+        if a.shape != b.shape or not np.array_equal(a, b):
+            raise Violation("overlap-changes-table", f"{name} with rel_overlap={r!r} differs from the table "
+                            "without overlap", _tags(case, table=name))
+    for name in ("global_corners_cartesian", "global_centers_cartesian"):
+        a, b = np.asarray(getattr(p, name), float), np.asarray(getattr(p0, name), float)
+        if a.shape != b.shape or np.any(np.abs(a - b) > tol):
+            raise Violation("overlap-changes-table", f"{name} with rel_overlap={r!r} differs from the table "
+                            "without overlap", _tags(case, table=name))
+    gcv = np.asarray(p.global_corners_voxels)
+    n_eval = 0
+    for i, j in _ij(case):
+        inner = p(i, j).img[p.relative_rois_without_overlap[i][j]]
+        plain = p0(i, j).img
+        whole = plain[p0.relative_rois_without_overlap[i][j]]
+        if whole.shape != plain.shape:
+            raise Violation("plain-patch-not-interior", f"patch ({i},{j}) without overlap has shape {plain.shape} "
+                            f"but its interior {whole.shape}", t)
+        if inner.shape != plain.shape or not np.array_equal(inner, plain):
+            raise Violation("overlap-changes-interior", f"patch ({i},{j}): interior with rel_overlap={r!r} (shape "
+                            f"{inner.shape}) is not the patch without overlap (shape {plain.shape})", t)
+        n_eval += 1
+        if 0 in plain.shape[:2]:
+            continue
+        roi = p.rois[i][j]
+        for d, idx in ((0, i), (1, j)):
+            # about r patch sizes: between r * (N/n) rounded down and r * ceil(N/n) rounded up, plus
+            # one voxel for a quotient that should have been an integer
+            lo = int(np.floor(r * N[d] / n[d] * (1 - 1e-12)))
+            hi = int(np.ceil(r * -(-N[d] // n[d]))) + 1
+            reach = {}
+            if idx > 0:
+                reach["before"] = int(gcv[i, j, 0, d]) - int(roi[d].start or 0)
+            if int(gcv[i, j, 2, d]) < N[d]:
+                reach["behind"] = int(roi[d].stop) - int(gcv[i, j, 2, d])
+            for side, e in reach.items():
+                if not lo <= e <= hi:
+                    raise Violation("overlap-width", f"patch ({i},{j}) of {n} patches on {N} voxels, "
+                                    f"rel_overlap={r!r}: rois[{i}][{j}] = {roi} reaches {e} voxels {side} its "
+                                    f"interior {gcv[i, j, 0].tolist()}..{gcv[i, j, 2].tolist()} on axis {d}; "
+                                    f"{r!r} patch sizes are {lo}..{hi} voxels", _tags(case, side=side))
+            # ... and the patch image has voxels on each side the roi reaches over
+            sides = sum(1 for e in reach.values() if e >= 1)
+            if p(i, j).img.shape[d] < inner.shape[d] + sides:
+                raise Violation("overlap-width", f"patch ({i},{j}): rois[{i}][{j}] = {roi} reaches over the interior "
+                                f"on {sides} side(s) of axis {d}, but the patch image has {p(i, j).img.shape[d]} "
+                                f"voxels there and the interior {inner.shape[d]}", _tags(case, side="image"))
+    return _outcome(case, p, n_eval)
+
+
+# ---------------------------------------------------------------------------------------
+# 8. one Patches object used repeatedly: assemble twice, set some patches, update the base
+# ---------------------------------------------------------------------------------------
+
+
+def _geometry(im):
+    return [float(x) for x in np.asarray(im.origin, float)], [float(d) for d in im.dimensions]
+
+
+def check_reuse(case):
+    """assemble() is a pure read (same result twice, base object kept); set_image on some patches
+    leaves the others as they were cut and the next assemble() shows the new content;
+    assemble(update_img=True) returns the mosaic of the current
+    interiors *and* makes it the base of the Patches object - as an image of its own, in the frame
+    and class of the old base; a further assemble() gives the same mosaic again."""
+    img, arr, ref = _build(case)
+    p = _patches(case, img)
+    t = _tags(case)
+    ids = _ij(case)
+    base0 = p.base
+    out1 = p.assemble()
+    out2 = p.assemble(False) if case["pseed"] % 3 == 0 else p.assemble(update_img=False)
+    if out1.img.shape != out2.img.shape or not np.array_equal(out1.img, out2.img) or \
+            not np.array_equal(out1.img, arr):
+        raise Violation("reassemble-differs", "two assemble() calls in a row do not both reproduce the base", t)
+    if p.base is not base0 or not np.array_equal(p.base.img, arr):
+        raise Violation("base-replaced-without-update", "assemble() without update_img replaced or changed the "
+                        "base of the Patches object", t)
+    # new content for some of the patches
+    rng = np.random.default_rng(case["pseed"])
+    chosen = [ij for ij in ids if rng.integers(0, 2)] or [ids[int(rng.integers(0, len(ids)))]]
+    new = {}
+    for k, (i, j) in enumerate(chosen):
+        new[(i, j)] = _block(p(i, j).img.shape, k, arr.dtype)
+        p.set_image(new[(i, j)].copy(), i, j)
+    want = np.zeros_like(arr)
+    for (i, j) in ids:
+        roi = p.rois[i][j]
+        rel = p.relative_rois_without_overlap[i][j]
+        cut = arr[roi[0], roi[1]]
+        if (i, j) not in new and (p(i, j).img.shape != cut.shape or not np.array_equal(p(i, j).img, cut)):
+            raise Violation("set-image-touches-other-patch", f"patch ({i},{j}) was not set but no longer is the "
+                            f"base at rois[{i}][{j}] after set_image on {chosen}", t)
+        content = new.get((i, j), cut)
+        ph, pw = content.shape[:2]
+        rows = np.arange(ph)[rel[0]] + (roi[0].start or 0)
+        cols = np.arange(pw)[rel[1]] + (roi[1].start or 0)
+        if len(rows) and len(cols):
+            want[np.ix_(rows, cols)] = content[rel]
+    # assemble() reads the patches as they are now, not as they were at the first call
+    mid = p.assemble()
+    if mid.img.shape != want.shape or not np.array_equal(mid.img, want):
+        raise Violation("reassemble-stale", "assemble() after set_image on some patches (and an earlier assemble()) "
+                        "is not the mosaic of the current patch interiors", t)
+    if p.base is not base0 or not np.array_equal(p.base.img, arr):
+        raise Violation("base-replaced-without-update", "set_image / assemble() without update_img replaced or "
+                        "changed the base of the Patches object", t)
+    out3 = p.assemble(update_img=True)
+    if out3.img.shape != want.shape or not np.array_equal(out3.img, want):
+        raise Violation("update-img-result", "assemble(update_img=True) does not return the mosaic of the current "
+                        "patch interiors", t)
+    b = p.base
+    if b.img.shape != want.shape or b.img.dtype != arr.dtype or not np.array_equal(b.img, want):
+        raise Violation("update-img-base", "after assemble(update_img=True) the base of the Patches object is not "
+                        "the assembled image", t)
+    if type(b).__name__ != case["cls"] or _geometry(b) != _geometry(img):
+        raise Violation("update-img-frame", f"updated base: {type(b).__name__} at {_geometry(b)}, was "
+                        f"{case['cls']} at {_geometry(img)}", t)
+    if want.size:
+        # the result handed to the caller and the new base are two images
+        out3.img[...] = _block(want.shape, 41, arr.dtype)
+        if not np.array_equal(p.base.img, want):
+            raise Violation("update-img-base-aliases-result", "the updated base changed when the caller wrote into "
+                            "the image returned by assemble(update_img=True)", t)
+    out4 = p.assemble()
+    if out4.img.shape != want.shape or not np.array_equal(out4.img, want):
+        raise Violation("reassemble-differs", "assemble() after assemble(update_img=True) gives a different image", t)
+    return _outcome(case, p, 5 + len(ids))
+
+
+# ---------------------------------------------------------------------------------------
 
 _RULE = ("Hypothesis draws a 2-D image (extents 1..40 per axis, one third forced divisible by the "
-         "patch count), patch counts 1..6 per axis, relative overlap in [0, 0.5], physical dimensions "
+         "patch count), patch counts 1..6 per axis (as list, tuple or list of numpy integers), relative "
+         "overlap in [0, 0.5] (in [0.01, 0.5] for overlap_extends_interiors), physical dimensions "
          "power-of-two / unit / decimal voxel sizes (0.05, 0.1, 0.3, 1/3, ... - the float-ceil "
-         "hazard) / generic, default or user origin, scalar or colour payload as Image / ScalarImage "
-         "/ OpticalImage; non-trivial = extent not divisible by the count, or overlap > 0, or "
+         "hazard) / generic, default or user origin, payload scalar / 3-channel colour / general "
+         "trailing axes (1, 2, 4 channels, 2x2 tensors) as Image / ScalarImage / OpticalImage (RGB, BGR, "
+         "HSV), dtypes float64 / float32 / uint8 / uint16 / int64 / bool, optionally a name and a time; "
+         "non-trivial = extent not divisible by the count, or overlap > 0, or "
          "non-power-of-two dimensions; distinct = (shape, counts, dimensions, overlap, origin, payload)")
 
 _N = {"quick": 1500, "thorough": 30000}
 _SH = {"quick": 3, "thorough": 16}
+_N2 = {"quick": 1000, "thorough": 20000}
+_SH2 = {"quick": 2, "thorough": 16}
 
 PROP = Prop(
     pid="C19",
@@ -465,6 +796,17 @@ PROP = Prop(
         "the position is not within 1e-6 of a voxel face",
         "empty patches (more patches than voxels, or ceil(N/n)*(n-1) >= N) are allowed and labelled; "
         "only tiling / data laws are asserted for them",
+        "local_corners_voxels: box of the interior in the patch's own frame; its position inside an "
+        "overlapping patch image is not specified (only its size is asserted there), without overlap it "
+        "starts at (0, 0) as PiecewisePerspectiveTransform assumes",
+        "'relative overlap r in relation to patch size in each direction': a patch reaches between "
+        "floor(r N/n) and ceil(r ceil(N/n)) + 1 voxels over its interior on every side with a neighbour; "
+        "corner / centre tables and interiors do not depend on r",
+        "set_image stores content, not the caller's buffer; assemble(update_img=True) makes an image of its "
+        "own the base (both copies are explicit in the source); whether the image object originally handed "
+        "to Patches changes on update_img is not asserted",
+        "patch counts given as numpy integers are accepted like Python ints (observed; counts usually come "
+        "out of array computations)",
     ],
     subs=[
         Sub("assemble_identity", check_assemble, gen=gen, n=_N, shards=_SH),
@@ -473,5 +815,8 @@ PROP = Prop(
         Sub("patch_is_subimage", check_subimage, gen=gen, n=_N, shards=_SH),
         Sub("corners_centres_agree", check_corners_centres, gen=gen, n=_N, shards=_SH),
         Sub("centre_in_own_box", check_centre_in_box, gen=gen, n=_N, shards=_SH),
+        Sub("local_corners", check_local_corners, gen=gen, n=_N2, shards=_SH2),
+        Sub("overlap_extends_interiors", check_overlap, gen=gen_overlap, n=_N2, shards=_SH2),
+        Sub("reuse_and_update_base", check_reuse, gen=gen, n=_N2, shards=_SH2),
     ],
 )
